@@ -63,6 +63,10 @@ pub struct Project {
     /// a fragment name that two files (which no document brings together) both define
     #[serde(default)]
     pub collided_fragment: Option<String>,
+    /// symbolic links of the layout: (link, target), absolute.  `root` and `cwd` are the paths as
+    /// the user types them (through the link); every path returned by `abs()` is physical.
+    #[serde(default)]
+    pub links: Vec<(String, String)>,
 }
 
 #[derive(Clone, Debug, Default)]
@@ -87,17 +91,24 @@ pub struct ProjectOpts {
     pub no_config_ok: bool,
     /// let fragments of files that no document brings together share a name
     pub fragment_name_collisions: bool,
+    /// x/100 of the layouts are reached through a symbolic link
+    pub symlinks_pct: u32,
 }
 
 pub const SANDBOX: &str = "/nvw";
 
 impl Project {
+    /// the physical location of `rel` (relative to the project root as the user types it)
     pub fn abs(&self, rel: &str) -> String {
         // like PathBuf::join: an absolute path replaces the base
         if rel.starts_with('/') {
-            return indep::norm(rel);
+            return indep::norm_with(rel, &self.links);
         }
-        indep::norm(&format!("{}/{}", self.root, rel))
+        indep::norm_with(&format!("{}/{}", self.root, rel), &self.links)
+    }
+    /// `rel` below the project root as the user types it (lexical, through links)
+    pub fn logical(&self, rel: &str) -> String {
+        indep::norm_with(&format!("{}/{}", self.root, rel), &[])
     }
     pub fn config_path(&self) -> String {
         self.abs(&self.config.file_name)
@@ -246,7 +257,7 @@ impl Project {
             return vec![];
         }
         if self.config.explicit {
-            let rel = indep::relative_spec(&format!("{}/x", self.cwd), &self.config_path());
+            let rel = indep::relative_spec(&format!("{}/x", self.cwd), &self.logical(&self.config.file_name));
             vec!["-c".into(), rel]
         } else {
             vec![]
@@ -507,7 +518,12 @@ pub fn gen_project(rng: &mut Rng, o: &ProjectOpts) -> Project {
         // hidden directories (outputs only: the glob library does not descend into them)
         ".nitrogql", ".cache/gql/types",
     ]);
-    let out_dir = if out_dir == "../gen-out" && depth == 0 { "gen-out" } else { out_dir };
+    // symlinked layout: the first directory below the sandbox root is a link to a directory one
+    // level deeper (`/nvw/app -> /nvw/zz-real/app`), as with pnpm stores, `current -> releases/N`
+    // deployments or a home directory on another volume.  `..` out of the link is then a
+    // different place for the kernel than for a lexical normaliser.
+    let symlinked = o.symlinks_pct > 0 && !outside && (rng.fork("symlinks").below(100) as u32) < o.symlinks_pct;
+    let out_dir = if out_dir == "../gen-out" && depth == 0 && !symlinked { "gen-out" } else { out_dir };
     let sch_name = *r_cfg.pick(&[
         "schema.d.ts",
         "schema.ts",
@@ -538,7 +554,7 @@ pub fn gen_project(rng: &mut Rng, o: &ProjectOpts) -> Project {
     if with_schema_output && r_cfg.chance(1, 3) {
         // the resolvers file gets its own directory half of the time
         let res_dir = if r_cfg.chance(1, 2) { out_dir } else { *r_cfg.pick(&["generated", "src/server", "../server-out", "deep/er/still", "."]) };
-        let res_dir = if res_dir == "../server-out" && depth == 0 { "server-out" } else { res_dir };
+        let res_dir = if res_dir == "../server-out" && depth == 0 && !symlinked { "server-out" } else { res_dir };
         g.insert("resolversOutput".into(), json!(place(res_dir, "resolvers.d.ts", &root)));
     }
     if r_cfg.chance(1, 3) {
@@ -645,7 +661,14 @@ pub fn gen_project(rng: &mut Rng, o: &ProjectOpts) -> Project {
     // line endings: one project in six was (partly) edited on Windows
     let mut r_eol = rng.fork("eol");
     let crlf: u64 = if r_eol.chance(1, 6) { if r_eol.chance(1, 2) { u64::MAX } else { r_eol.next_u64() } } else { 0 };
+    let links = if symlinked {
+        let first = root[SANDBOX.len() + 1..].split('/').next().unwrap_or("").to_string();
+        vec![(format!("{SANDBOX}/{first}"), format!("{SANDBOX}/zz-real/{first}"))]
+    } else {
+        vec![]
+    };
     Project {
+        links,
         collided_fragment,
         crlf,
         flags,
